@@ -303,8 +303,8 @@ B("B35c2", "C16-P3", [(SD, '''            space_unique_key(self.node_data(node_i
             for node_id in state["node_indices"].values()''', '''            space_unique_key(self.node_data(node_id)["space"], self.network): node_id
             for node_id in state["node_indices"].values()
             if self.node_data(node_id)["expanded"]''')], "index rebuilt for expanded nodes only")
-B("B35d", "C16-P3", [(SD, 'self.network = cleanup_network(BooleanNetwork.from_aeon(state["network_rules"]))',
-                      'self.network = cleanup_network(BooleanNetwork.from_bnet(state["network_rules"]))')],
+B("B35d", "C16-P3", [(SD, 'network = BooleanNetwork.from_aeon(state["network_rules"])',
+                      'network = BooleanNetwork.from_bnet(state["network_rules"])')],
   "rules exported as aeon, parsed as bnet")
 B("B78", "C16-P4", [(SD, '''            data["percolated_nfvs"] = None
             if data["attractor_seeds"]''', '''            data["percolated_nfvs"] = None
